@@ -63,6 +63,17 @@ mpz_miller_rabin (mpz_srcptr n, int reps, gmp_randstate_t rnd)
   unsigned long int k;
   int is_prime;
   TMP_DECL;
+
+  /* The Fermat test to base 210 = 2*3*5*7 and the random bases in [2, n-2]
+     below need n > 7: answer smaller n directly.  */
+  if (mpz_cmp_ui (n, 10L) < 0)
+    {
+      if (SIZ (n) <= 0)
+	return 0;
+      k = mpz_get_ui (n);
+      return k == 2 || k == 3 || k == 5 || k == 7;
+    }
+
   TMP_MARK;
 
   MPZ_TMP_INIT (nm1, SIZ (n) + 1);
